@@ -245,7 +245,9 @@ Definition mon_step (m : mon) (i : nat) (e : event) : mon :=
                      | (CkPause | CkStop), GRunning => true | _, _ => false end in
       let q := if resumed then m_quiet m
                else fold_left (fun acc t => nset acc t (mkQ i stale_before until)) mine (m_quiet m) in
-      set_fail (set_quiet m q) (rev fails ++ m_fail m)
+      (* a pause/stop that a resume has overtaken (overlapping commands: outside the property's quantifier)
+         is not judged *)
+      if resumed then m else set_fail (set_quiet m q) (rev fails ++ m_fail m)
     | _ => m
     end
   | _ => m
